@@ -85,6 +85,18 @@ theorem mem_scanUp {l : Str} {X : List Str} (h : l ∈ scanUp X) : l ∈ X := by
       · simp [e]
       · exact List.mem_cons_of_mem _ (ih e)
 
+theorem mem_scanUp_nonstop {l : Str} {X : List Str} (h : l ∈ scanUp X) : isStop l = false := by
+  induction X with
+  | nil => simp [scanUp] at h
+  | cons a as ih =>
+    simp only [scanUp] at h
+    split at h
+    · simp at h
+    · rename_i hs
+      rcases List.mem_cons.mp h with e | e
+      · subst e; simpa using hs
+      · exact ih e
+
 theorem hasTriple_tok (q : Quote) (r : Str) : hasTriple (indent ++ q.tok ++ r) = true := by
   cases q
   · have := breakOn_first '"' r (not_mem_indent (c := '"') (by decide))
@@ -128,25 +140,29 @@ theorem scanUp_block {b : Block} (hb : WF b) (W : List Str) :
     have : (blanks b.gap2 ++ belowLines (Below.one q m) ++ blanks b.gap3).reverse ++ defLine b :: W
         = blanks b.gap3 ++ (indent ++ q.tok ++ (m ++ q.tok)) :: (blanks b.gap2 ++ defLine b :: W) := by
       simp [belowLines, blanks_reverse, List.append_assoc]
-    rw [this, scanUp_stop _ _ _ blanks_nonstop (by rw [isStop, hasTriple_tok, Bool.or_true])]
+    rw [this, scanUp_stop _ _ _ blanks_nonstop (by rw [isStop, hasTriple_tok]; simp)]
     intro l hl; exact mem_blanks hl
   | multi q f r =>
     have : (blanks b.gap2 ++ belowLines (Below.multi q f r) ++ blanks b.gap3).reverse ++ defLine b :: W
         = blanks b.gap3 ++ (indent ++ q.tok ++ []) ::
             ((r.map (indent ++ ·)).reverse ++ (indent ++ q.tok ++ f) :: (blanks b.gap2 ++ defLine b :: W)) := by
       simp [belowLines, blanks_reverse, List.append_assoc]
-    rw [this, scanUp_stop _ _ _ blanks_nonstop (by rw [isStop, hasTriple_tok, Bool.or_true])]
+    rw [this, scanUp_stop _ _ _ blanks_nonstop (by rw [isStop, hasTriple_tok]; simp)]
     intro l hl; exact mem_blanks hl
 
 /-- the context above a block: the header lines after source line 0, then the earlier blocks -/
-theorem quiet_context {hs : List Str} {pre : List Block} (hh : ∀ l ∈ hs, '#' ∉ l)
+theorem quiet_context {hs : List Str} {pre : List Block}
+    (hh : ∀ l ∈ hs, isHeaderLine l = true ∨ '#' ∉ l)
     (hp : ∀ x ∈ pre, WF x) : ∀ l ∈ scanUp (hs ++ renderBlocks pre).reverse, '#' ∉ l := by
   rcases List.eq_nil_or_concat pre with e | ⟨pre', p, e⟩
   · subst e
     intro l hl
-    have := mem_scanUp hl
-    simp [renderBlocks] at this
-    exact hh l this
+    have hm := mem_scanUp hl
+    have hns := mem_scanUp_nonstop hl
+    simp [renderBlocks] at hm
+    rcases hh l hm with e | e
+    · simp [isStop, e] at hns
+    · exact e
   · subst e
     simp only [List.concat_eq_append] at hp ⊢
     have hpw : WF p := hp p (by simp)
@@ -423,9 +439,16 @@ theorem c19_extract (hdr : List Str) (pre post : List Block) (b : Block)
   cases hdr with
   | nil => simp [headerOk] at hh
   | cons h0 hs =>
-    simp only [headerOk, List.isEmpty_cons, Bool.not_false, List.all_cons, Bool.and_eq_true,
-      Bool.not_eq_eq_eq_not, Bool.not_true, List.all_eq_true, Bool.true_and, contains_false_iff] at hh
-    obtain ⟨⟨h0d, _⟩, hhs⟩ := hh
+    have hh' : ∀ l ∈ h0 :: hs, containsFieldDef l = false ∧ (isHeaderLine l = true ∨ '#' ∉ l) := by
+      intro l hl
+      simp only [headerOk, Bool.and_eq_true, List.all_eq_true] at hh
+      have h := hh.2 l hl
+      simp only [Bool.and_eq_true, Bool.not_eq_eq_eq_not, Bool.not_true, Bool.or_eq_true,
+        contains_false_iff] at h
+      exact h
+    have h0d : containsFieldDef h0 = false := (hh' h0 (by simp)).1
+    have hhs : ∀ l ∈ hs, containsFieldDef l = false ∧ (isHeaderLine l = true ∨ '#' ∉ l) :=
+      fun l hl => hh' l (List.mem_cons_of_mem _ hl)
     have hskip : ∀ l ∈ hs ++ renderBlocks pre ++ (b.above.map commentLine ++ blanks b.gap1),
         (containsFieldDef l && lineDefines l b.name) = false := by
       intro l hl
@@ -571,133 +594,125 @@ theorem clsDesc_absent (params : List (Str × Str)) (name : Str) (h : ∀ p ∈ 
     simp only [List.foldl_cons, hp, Bool.false_eq_true, ↓reduceIte]
     exact ih (fun q hq => h q (List.mem_cons_of_mem _ hq)) acc hacc
 
-/-! ### recorded findings: full statements, refuted by witnesses; the exclusions are named -/
+/-! ### repaired findings, now full theorems -/
 
-/-- named exclusion 1: a `#` in the annotation / default part of the definition line -/
-def hashInDefault (b : Block) : Bool := b.tail.contains '#'
+theorem cfd_congr {l l' : Str} (h : before '#' l = before '#' l') :
+    containsFieldDef l = containsFieldDef l' := by
+  unfold containsFieldDef; rw [h]
 
-/-- `Block.wf` without the exclusion -/
-def wfLoose (b : Block) : Bool :=
-  isIdentifier b.name && !b.tail.contains ':'
-  && (match b.inline with
-      | some m => !m.contains ':'
-      | none => true)
-  && b.above.all quoteFree
-  && (match b.below with
-      | .none => true
-      | .one _ m => docText m
-      | .multi _ f r => docText f && r.all docText)
+/-- `@dataclass  # <any comment>` -/
+def decoratorLine (c : Str) : Str := ['@', 'd', 'a', 't', 'a', 'c', 'l', 'a', 's', 's', ' ', ' ', '#', ' '] ++ c
+/-- `class C0:  # <any comment>` -/
+def classLine (c : Str) : Str := ['c', 'l', 'a', 's', 's', ' ', 'C', '0', ':', ' ', ' ', '#', ' '] ++ c
 
-/-- the full statement: extraction = documented text for *every* default value -/
-def FullStatement_defaults : Prop :=
-  ∀ (hdr : List Str) (pre post : List Block) (b : Block), headerOk hdr = true →
-    (∀ x ∈ pre ++ b :: post, wfLoose x = true) → (∀ x ∈ pre, x.name ≠ b.name) →
-    scanLines (hdr ++ renderBlocks (pre ++ b :: post)) b.name = some b.doc
+theorem commented_header_ok (c d : Str) : headerOk [decoratorLine c, classLine d] = true := by
+  have h1 : containsFieldDef (decoratorLine c) = false := by
+    have e : decoratorLine c = ['@', 'd', 'a', 't', 'a', 'c', 'l', 'a', 's', 's', ' ', ' '] ++ '#' :: ' ' :: c := rfl
+    apply cfd_no_colon
+    rw [e, before_stop _ (by decide)]
+    decide
+  have h2 : containsFieldDef (classLine d) = false := by
+    have e : classLine d = ['c', 'l', 'a', 's', 's', ' ', 'C', '0', ':', ' ', ' '] ++ '#' :: ' ' :: d := rfl
+    have e' : before '#' (classLine d) = before '#' ['c', 'l', 'a', 's', 's', ' ', 'C', '0', ':', ' ', ' '] := by
+      rw [e, before_stop _ (by decide)]; decide
+    rw [cfd_congr e']
+    decide
+  have h3 : isHeaderLine (decoratorLine c) = true := by
+    simp [isHeaderLine, decoratorLine, lstripWs, isSpace, startsWith]
+  have h4 : isHeaderLine (classLine d) = true := by
+    simp [isHeaderLine, classLine, lstripWs, isSpace, startsWith]
+  simp [headerOk, h1, h2, h3, h4]
 
-def colorBlock : Block :=
-  { above := [], gap1 := 0, name := "color".toList, tail := " str = \"#ff0000\"".toList, inline := none,
-    gap2 := 0, below := .none, gap3 := 0 }
+/-- **A comment on the `class` line or on a decorator line is nobody's documentation** (was
+    finding C19-header-comment, repaired): whatever the two comments say, every field — the
+    first one included — gets exactly its own block's documentation. -/
+theorem c19_header_comment (c d : Str) (pre post : List Block) (b : Block)
+    (hw : ∀ x ∈ pre ++ b :: post, x.wf = true) (hn : ∀ x ∈ pre, x.name ≠ b.name) :
+    scanLines ([decoratorLine c, classLine d] ++ renderBlocks (pre ++ b :: post)) b.name = some b.doc :=
+  c19_extract _ pre post b (commented_header_ok c d) hw hn
 
-/-- finding C19-hash-in-default: `color: str = "#ff0000"` gets the inline text `ff0000"` -/
-theorem c19_hash_in_default_witness : ¬ FullStatement_defaults := by
-  intro h
-  have := h ["class C0:".toList] [] [] colorBlock (by decide) (by decide) (by simp)
-  revert this
-  decide
+/-- what a class contributes to the class-docstring position: its entry for exactly that name,
+    whether or not it declares the field itself -/
+theorem scanClass_cls (c : ClassSrc) (name : Str) :
+    ((scanClass c name).map (·.cls)).getD [] = clsDesc c.params name := by
+  unfold scanClass
+  cases scanLines (splitLines (removeDoc c.doc c.source)) name with
+  | some d => rfl
+  | none =>
+    cases h : clsDesc c.params name with
+    | nil => simp
+    | cons x xs => simp
 
-/-- the partial theorem is `c19_extract`: its hypothesis `Block.wf` is `wfLoose` minus the named
-    exclusion -/
-theorem c19_extract_partial_exclusion (b : Block) : b.wf = (wfLoose b && !hashInDefault b) := by
-  simp only [Block.wf, wfLoose, hashInDefault]
-  cases isIdentifier b.name <;> cases b.tail.contains ':' <;> cases b.tail.contains '#' <;> simp <;> rfl
+/-- a class that only documents the field in its docstring contributes nothing to the three
+    source-level positions (so it never hides a base class's comment or docstring) -/
+theorem scanClass_undeclared (c : ClassSrc) (name : Str)
+    (h : scanLines (splitLines (removeDoc c.doc c.source)) name = none) :
+    scanClass c name = none ∨ scanClass c name = some ⟨[], [], [], clsDesc c.params name⟩ := by
+  unfold scanClass
+  rw [h]
+  cases (clsDesc c.params name).isEmpty <;> simp
 
-/-- named exclusion 2: a comment on a header line (`class C0:  # …`) -/
-def headerHasComment (hdr : List Str) : Bool := hdr.any (fun l => l.contains '#')
-
-def FullStatement_header : Prop :=
-  ∀ (hdr : List Str) (pre post : List Block) (b : Block),
-    (!hdr.isEmpty && hdr.all (fun l => !containsFieldDef l)) = true →
-    (∀ x ∈ pre ++ b :: post, x.wf = true) → (∀ x ∈ pre, x.name ≠ b.name) →
-    scanLines (hdr ++ renderBlocks (pre ++ b :: post)) b.name = some b.doc
-
-def plainBlock : Block :=
-  { above := [], gap1 := 0, name := "a".toList, tail := " int = 0".toList, inline := none,
-    gap2 := 0, below := .none, gap3 := 0 }
-
-/-- finding C19-header-comment: the comment of the `class` line becomes the first field's
-    comment-above -/
-theorem c19_header_comment_witness : ¬ FullStatement_header := by
-  intro h
-  have := h ["@dataclass".toList, "class C0:  # about the class".toList] [] [] plainBlock
-    (by decide) (by decide) (by simp)
-  revert this
-  decide
-
-theorem c19_header_partial_exclusion (hdr : List Str) :
-    headerOk hdr = (!hdr.isEmpty && hdr.all (fun l => !containsFieldDef l) && !headerHasComment hdr) := by
-  have key : ∀ ls : List Str, ls.all (fun l => !containsFieldDef l && !l.contains '#')
-      = (ls.all (fun l => !containsFieldDef l) && !ls.any (fun l => l.contains '#')) := by
-    intro ls
-    induction ls with
-    | nil => rfl
-    | cons l ls ih =>
-      simp only [List.all_cons, List.any_cons, ih]
-      cases containsFieldDef l <;> cases l.contains '#' <;>
-        cases ls.all (fun l => !containsFieldDef l) <;> cases ls.any (fun l => l.contains '#') <;> rfl
-  simp only [headerOk, headerHasComment, key, Bool.and_assoc]
-
-/-- the full statement for the class-docstring position: the nearest class whose docstring has an
-    entry for the field provides it -/
-def FullStatement_clsdoc : Prop :=
-  ∀ (mro : List ClassSrc) (name : Str),
-    (attributeDoc mro name).cls = firstNonEmpty (mro.map (fun c => clsDesc c.params name))
-
-def baseSrc : ClassSrc :=
-  { source := "@dataclass\nclass C0:\n    a: int = 0\n".toList, doc := none, params := [] }
-def derivedSrc : ClassSrc :=
-  { source := "@dataclass\nclass C1(C0):\n    x: int = 0\n".toList, doc := none,
-    params := [("a".toList, "the a of C1".toList)] }
-
-/-- finding C19-clsdoc-inherited: the subclass documents the inherited field `a` in its class
-    docstring without re-declaring it; the entry is ignored -/
-theorem c19_clsdoc_inherited_witness : ¬ FullStatement_clsdoc := by
-  intro h
-  have := h [derivedSrc, baseSrc] "a".toList
-  revert this
-  decide
-
-/-- named exclusion 3 (decidable): some class has a docstring entry for a field it does not define -/
-def documentsUndeclared (mro : List ClassSrc) (name : Str) : Bool :=
-  mro.any (fun c => (scanClass c name).isNone && !(clsDesc c.params name).isEmpty)
-
-/-- partial: without the exclusion the class-docstring text comes from the nearest class whose
-    docstring has an entry -/
-theorem c19_clsdoc_partial (mro : List ClassSrc) (name : Str)
-    (hex : documentsUndeclared mro name = false) :
+/-- **The class-docstring entry comes from the nearest class whose docstring has one** — for every
+    MRO and every name, including subclasses that document an inherited field without
+    re-declaring it (was finding C19-clsdoc-inherited, repaired). -/
+theorem c19_clsdoc (mro : List ClassSrc) (name : Str) :
     (attributeDoc mro name).cls = firstNonEmpty (mro.map (fun c => clsDesc c.params name)) := by
   unfold attributeDoc
   rw [(c19_mro _).2.2.2]
   induction mro with
   | nil => rfl
   | cons c cs ih =>
-    simp only [documentsUndeclared, List.any_cons, Bool.or_eq_false_iff] at hex
-    have ih' := ih (by simpa [documentsUndeclared] using hex.2)
+    have hc := scanClass_cls c name
     simp only [List.map_cons, List.filterMap_cons, id, firstNonEmpty]
     cases hsc : scanClass c name with
     | none =>
-      have : clsDesc c.params name = [] := by
-        have := hex.1
-        simp only [hsc, Option.isNone_none, Bool.true_and, Bool.not_eq_false'] at this
-        simpa using this
-      simp only [this, orStr, List.isEmpty_nil, ↓reduceIte]
-      exact ih'
+      rw [hsc] at hc
+      simp only [Option.map_none, Option.getD_none] at hc
+      rw [← hc]
+      simp only [orStr, List.isEmpty_nil, ↓reduceIte]
+      exact ih
     | some d =>
-      have hd : d.cls = clsDesc c.params name := by
-        unfold scanClass at hsc
-        split at hsc
-        · cases hsc
-        · cases hsc; rfl
-      simp only [List.map_cons, firstNonEmpty, hd, ih']
+      rw [hsc] at hc
+      simp only [Option.map_some, Option.getD_some] at hc
+      simp only [List.map_cons, firstNonEmpty, hc, ih]
+
+def colorBlock : Block :=
+  { above := [], gap1 := 0, name := "color".toList, tail := " str = \"#ff0000\"".toList, inline := none,
+    gap2 := 0, below := .none, gap3 := 0 }
+def colorBlock2 : Block :=
+  { colorBlock with tail := " str = field(default='a # b', help=\"x#y\")".toList,
+                    inline := some "the # real comment".toList }
+
+/-- **A `#` inside a string literal of the default value is not a comment** (was finding
+    C19-hash-in-default, repaired): such blocks are well-formed, so `c19_extract`, `c19_no_leak`
+    and `c19_none` cover them; the former witness now yields no text at all. -/
+theorem c19_hash_in_default (hdr : List Str) (pre post : List Block) (hh : headerOk hdr = true)
+    (hw : ∀ x ∈ pre ++ colorBlock :: post, x.wf = true) (hn : ∀ x ∈ pre, x.name ≠ colorBlock.name) :
+    scanLines (hdr ++ renderBlocks (pre ++ colorBlock :: post)) colorBlock.name = some Doc.empty :=
+  c19_none hdr pre post colorBlock hh hw hn rfl rfl rfl
+
+example : colorBlock.wf = true ∧ colorBlock2.wf = true := by decide
+example : scanLines (["class C0:".toList] ++ renderBlocks [colorBlock]) "color".toList = some Doc.empty := by decide
+example : scanLines (["class C0:".toList] ++ renderBlocks [colorBlock2]) "color".toList
+    = some ⟨[], "the # real comment".toList, [], []⟩ := by decide
+
+def baseSrc : ClassSrc :=
+  { source := "@dataclass\nclass C0:\n    a: int = 0  # side\n".toList, doc := none, params := [] }
+def derivedSrc : ClassSrc :=
+  { source := "@dataclass\nclass C1(C0):\n    x: int = 0\n".toList, doc := none,
+    params := [("a".toList, "the a of C1".toList)] }
+
+/-- the former witness, now the expected answer: `C1` documents the inherited `a` -/
+example : attributeDoc [derivedSrc, baseSrc] "a".toList = ⟨[], "side".toList, [], "the a of C1".toList⟩ := by
+  decide
+
+def plainBlock : Block :=
+  { above := [], gap1 := 0, name := "a".toList, tail := " int = 0".toList, inline := none,
+    gap2 := 0, below := .none, gap3 := 0 }
+
+/-- the former witness: the comment of the `class` line no longer reaches the first field -/
+example : scanLines (["@dataclass".toList, "class C0:  # about the class".toList] ++ renderBlocks [plainBlock])
+    "a".toList = some Doc.empty := by decide
 
 /-! ### the hypotheses are satisfiable by non-trivial inputs -/
 
@@ -723,6 +738,6 @@ example : scanLines (exHdr ++ renderBlocks [exAB, exA, exABC]) "ab".toList
     = some ⟨[], [], "below ab\nmore ab\n".toList, []⟩ := by decide
 example : (getAttributeDocstring [none, some ⟨[], "i1".toList, [], []⟩, some ⟨"a2".toList, "i2".toList, [], "c2".toList⟩])
     = ⟨"a2".toList, "i1".toList, [], "c2".toList⟩ := by decide
-example : documentsUndeclared [baseSrc] "a".toList = false := by decide
+example : headerOk [decoratorLine "frozen or not".toList, classLine "about the class".toList] = true := by decide
 
 end SpVerif.C19
